@@ -219,6 +219,10 @@ class Harness:
             self.classes[c] = self.classes.get(c, 0) + 1
         if res.inconclusive:
             self.inconclusive[res.inconclusive] = self.inconclusive.get(res.inconclusive, 0) + 1
+            dump = os.environ.get("VERIF_DUMP_INCONCLUSIVE")  # debugging aid: directory that receives those cases
+            if dump:
+                with open(os.path.join(dump, f"{self.pid}-{self.shard}-{self.cases}.json"), "w") as f_:
+                    json.dump({"case": case, "why": res.inconclusive}, f_, default=str)
         if res.nontrivial:
             h = case_hash(case)
             if h not in self.nontrivial:
@@ -388,6 +392,13 @@ def shard_main(argv: List[str]) -> int:
     if H.harness_errors:
         rc = 2
     sys.stdout.flush()
+    if os.environ.get("VERIF_COVERAGE"):  # tools/coverage_report.sh: os._exit skips coverage's atexit hook
+        import coverage
+
+        cov = coverage.Coverage.current()
+        if cov is not None:
+            cov.stop()
+            cov.save()
     # worker threads of pools that tawazi never shuts down must not keep the process alive
     os._exit(rc)
 
